@@ -1247,10 +1247,11 @@ def mut_expand(probes, results):
 
 
 def strfn_jobs(sites, reps):
-    """built-in functions only: a function written in the language that renders its argument (esc, max, printf)
-    recurses through `_str_` until the stack is used up, and the unwinding renders the arguments of every
-    frame again (nodes.py invoke -> getFuncallString): minutes per case, see proposed/C13-round5.md"""
-    return [("strfn", s, (wrap,)) for s in reps if sites[s][2][0] == "native" for wrap in STR_WRAPS]
+    """every distinct function as the `_str_` member of an object - built-ins and functions written in the language
+    (one that renders its argument - esc, max, printf - recurses through `_str_` until the stack is used up; the
+    unwinding once rendered the arguments of every frame again, time exponential in the depth: repaired, and a
+    case that does not end is reported like every other one)"""
+    return [("strfn", s, (wrap,)) for s in reps for wrap in STR_WRAPS]
 
 
 def shadow_jobs(sites, reps, names, quick):
